@@ -6,9 +6,11 @@ white space in every gap), deviation-bounded from the canonical rendering.
 Oracle: TreeBuilder().feed(text); close() == generating term.  ref_sgml reads every text too
 (self-check of generator and reference: disagreement there is a harness error, not a verdict).
 """
+import contextlib
 import itertools
 
 from vf import ref_sgml
+from vf.checks import c06
 from vf.core import vacuous, HarnessError, Tally, deviations
 
 LEVEL = "exploration"
@@ -210,17 +212,22 @@ def file_phase(chunk):
                 text = ref_sgml.render(term, lo, None)
                 if ref_sgml.build(text) != term:
                     raise HarnessError(f"reference does not read back {text!r}")
-                for hname, head, codec in heads:
+                for (hname, head, codec), loud in itertools.product(heads, (False, True)):
                     try:
                         data = (head + text).encode(codec)
                     except UnicodeEncodeError:
                         continue
+                    if loud and "standard" in hname:
+                        continue  # with the library's loggers at DEBUG: the tight layouts and the two 8-bit charsets
                     t.count("evaluations")
                     t.count("files")
-                    case = {"term": term, "leafopts": sorted(lo.items()), "gaps": None, "head": hname}
+                    case = {"term": term, "leafopts": sorted(lo.items()), "gaps": None, "head": hname, "logging": "DEBUG" if loud else None}
+                    if loud:
+                        hname += "+logging-at-DEBUG"
                     try:
                         tree = OFXTree()
-                        got = ref_sgml.et_to_term(tree.parse(io.BytesIO(data)))
+                        with (c06.verbose_logging({"loglevel": "DEBUG"}) if loud else contextlib.nullcontext()):
+                            got = ref_sgml.et_to_term(tree.parse(io.BytesIO(data)))
                         # the header object handed back is the caller's (e.g. to write the file out again under another
                         # charset): editing it must not reach any later parse
                         for attr, val in (("charset", "1252" if getattr(tree.header, "charset", None) != "1252" else "NONE"), ("version", 103 if hname.startswith("v1") else 220), ("newfileuid", "EDITED")):
